@@ -3,7 +3,15 @@
      B ...                                           disc of the second family
      S j0 j1 j2 ...                                  proposed matching: i -> j_i
      GO                                              prints OK or FAIL and resets
-   zarith is used only to turn decimal strings into bits. *)
+   conversions between equivalent formulations (Match/ConvertModel.v); a complex rational is 4 decimal
+   integers  re_num re_den im_num im_den  (denominators non-zero):
+     P c0 c1 ...        polynomial, low degree first          N b0 b1 ...   nodes        C c   constant
+     K c0 c1 ...        proposed Chebyshev coefficients
+     SCALE | RESCALE | REVERSE      prints  R <coefficients>   of  C*p | p(C x) | reversed p
+     SECULAR <0|1>      prints  S <pre> <back> a0 b0 a1 b1 ...  (regenerated secular form of P on nodes N;
+                        pre = conv_secular_pre, back = secular_back_ok when the argument is 1, else -)
+     CHEB               prints  K <0|1> = chebyshev_back_ok P K
+   zarith is used only to turn decimal strings into bits and back. *)
 module BZ = Z    (* zarith; the extracted module has its own Z *)
 open Matchq
 let rec pos_of_z (n : BZ.t) : positive =
@@ -12,18 +20,48 @@ let rec pos_of_z (n : BZ.t) : positive =
 let z_of_z (n : BZ.t) : z = if BZ.sign n = 0 then Z0 else if BZ.sign n > 0 then Zpos (pos_of_z n) else Zneg (pos_of_z (BZ.neg n))
 let q_of num den = { qnum = z_of_z (BZ.of_string num); qden = pos_of_z (BZ.of_string den) }
 let rec nat_of_int n = if n <= 0 then O else S (nat_of_int (n - 1))
+let rec bz_of_pos (p : positive) : BZ.t = match p with
+  | XH -> BZ.one | XO q -> BZ.shift_left (bz_of_pos q) 1 | XI q -> BZ.succ (BZ.shift_left (bz_of_pos q) 1)
+let bz_of_z (n : z) : BZ.t = match n with Z0 -> BZ.zero | Zpos p -> bz_of_pos p | Zneg p -> BZ.neg (bz_of_pos p)
+let rec gqs_of_tokens = function
+  | rn :: rd :: im :: id :: rest ->
+    gq_of_rcoef { re_n = z_of_z (BZ.of_string rn); re_d = z_of_z (BZ.of_string rd);
+                  im_n = z_of_z (BZ.of_string im); im_d = z_of_z (BZ.of_string id) } :: gqs_of_tokens rest
+  | [] -> []
+  | _ -> failwith "bad complex rational"
+let str_of_gq (x : gq) : string =
+  let r = rcoef_of_gq x in
+  String.concat " " (List.map (fun v -> BZ.to_string (bz_of_z v)) [r.re_n; r.re_d; r.im_n; r.im_d])
+let str_of_poly (p : gq list) = String.concat " " (List.map str_of_gq p)
+let b01 b = if b then "1" else "0"
 let () =
   let a = ref [] and b = ref [] and s = ref [] in
+  let pol = ref [] and nodes = ref [] and cst = ref gq_one and cheb = ref [] in
   try while true do
     let l = input_line stdin in
-    match String.split_on_char ' ' (String.trim l) with
+    match List.filter (fun x -> x <> "") (String.split_on_char ' ' (String.trim l)) with
     | ("A" | "B") as t :: [rn; rd; im; id; qn; qd] ->
       let d = { cre = q_of rn rd; cim = q_of im id; rad = q_of qn qd } in
       if t = "A" then a := d :: !a else b := d :: !b
-    | "S" :: js -> s := List.map (fun j -> nat_of_int (int_of_string j)) (List.filter (fun x -> x <> "") js)
+    | "S" :: js -> s := List.map (fun j -> nat_of_int (int_of_string j)) js
     | ["GO"] ->
       print_endline (if check_matching (List.rev !a) (List.rev !b) !s then "OK" else "FAIL");
       a := []; b := []; s := []
-    | [""] -> ()
+    | "P" :: ts -> pol := gqs_of_tokens ts
+    | "N" :: ts -> nodes := gqs_of_tokens ts
+    | "K" :: ts -> cheb := gqs_of_tokens ts
+    | "C" :: ts -> (match gqs_of_tokens ts with [c] -> cst := c | _ -> failwith "C needs one number")
+    | ["SCALE"] -> print_endline ("R " ^ str_of_poly (conv_scale !cst !pol))
+    | ["RESCALE"] -> print_endline ("R " ^ str_of_poly (conv_rescale !cst !pol))
+    | ["REVERSE"] -> print_endline ("R " ^ str_of_poly (conv_reverse !pol))
+    | ["SECULAR"; back] ->
+      let pre = conv_secular_pre !pol !nodes in
+      if not pre then print_endline "S 0 -" else begin
+        let ab = conv_secular !pol !nodes in
+        let bk = if back = "1" then b01 (secular_back_ok !pol ab) else "-" in
+        print_endline ("S 1 " ^ bk ^ " " ^ String.concat " " (List.map (fun (x, y) -> str_of_gq x ^ " " ^ str_of_gq y) ab))
+      end
+    | ["CHEB"] -> print_endline ("K " ^ b01 (chebyshev_back_ok !pol !cheb))
+    | [] -> ()
     | _ -> print_endline "BADLINE"
   done with End_of_file -> ()
